@@ -221,6 +221,19 @@ def run_property(prop, tier, seed, jobs, write_baseline, t_start):
         return run_unit(u)
 
     fallback_cache = {}
+    proof_lost = []
+    for q, why in unsupported:
+        if q not in P.get("inv", []):
+            continue
+        # a function under proof left the supported subset (e.g. after a refactoring): the unbounded proof is lost;
+        # the bounded stand-in (same contract, loops unrolled) still decides whether the contract is violated
+        fb = fallback_unroll(q)
+        fallback_cache[q] = fb
+        proof_lost.append((q, why, fb.get("unsupported") or fb.get("error")))
+        for x in fb.get("obligations", []):
+            x["unit_kind"] = "unroll"
+            x["qual"] = q
+            bounded_obs.append(x)
     for o in all_obs + bounded_obs:
         if o["result"] == "unsat":
             continue
@@ -349,6 +362,9 @@ def run_property(prop, tier, seed, jobs, write_baseline, t_start):
         prop, tier, n_inv, n_inv_ok, len(bounded_obs), time.time() - t_start))
     for q, why in unsupported:
         print("UNSUPPORTED function=%s %s" % (q, why))
+    for q, why, fberr in proof_lost:
+        print("PROOF-LOST property=%s function=%s (outside the verified subset: %s); bounded stand-in %s" % (
+            prop, q, why, "also failed: %s" % fberr if fberr else "ran instead"))
     for k, n, rp, path in known_hits:
         print("KNOWN-FINDING: property=%s %s [%s] obligation=%s%s" % (prop, k.get("what", ""), k.get("id", ""), n,
                                                                       " (replayed on the real code)" if rp else ""))
